@@ -319,10 +319,14 @@ def scan_shape(g, list_attr):
         if n.kind == 'cond' and isinstance(n.ast, ast.Compare) and len(n.ast.ops) == 1:
             t = n.ast
             l, r = t.left, t.comparators[0]
-            if isinstance(t.ops[0], (ast.Lt, ast.Gt)):
-                if isinstance(t.ops[0], ast.Gt):
-                    l, r = r, l
-                if isinstance(l, ast.Name) and canon_text(r, n.frame, keep=(l.id,)) == f'len(self.{list_attr})':
+            # `i < len(L)` (stay in the loop on T) or its negation `i >= len(L)` (leave the loop on T), either operand order
+            MIRROR = {ast.Lt: ast.Gt, ast.Gt: ast.Lt, ast.LtE: ast.GtE, ast.GtE: ast.LtE}
+            op = type(t.ops[0])
+            if op in MIRROR:
+                if not isinstance(l, ast.Name):
+                    l, r, op = r, l, MIRROR[op]
+                if isinstance(l, ast.Name) and canon_text(r, n.frame, keep=(l.id,)) == f'len(self.{list_attr})' and op in (ast.Lt, ast.GtE):
+                    n._in_label = 'T' if op is ast.Lt else 'F'
                     heads.append((n, l.id))
     if len(heads) != 1:
         return [(None, f'expected one index scan `while i < len(self.{list_attr})`, found {len(heads)}')], None
@@ -360,7 +364,7 @@ def scan_shape(g, list_attr):
             return 'other'
         return None
 
-    starts = [m for l, m in g.succ[head.id] if l == 'T']
+    starts = [m for l, m in g.succ[head.id] if l == getattr(head, '_in_label', 'T')]
     paths = []
 
     def dfs(n, seen, effs):
@@ -399,7 +403,7 @@ def scan_shape(g, list_attr):
 def loop_body_paths(g, head, limit=4000):
     """all simple paths through the body of the while-loop whose test is the cond node `head`:
     from the T edge of the test back to the loop head.  Each path is a list of (node, label taken out of it)."""
-    starts = [m for l, m in g.succ[head.id] if l == 'T']
+    starts = [m for l, m in g.succ[head.id] if l == getattr(head, '_in_label', 'T')]
     paths = []
 
     def is_head(n):
